@@ -501,6 +501,10 @@ func (ro *RedisOutput) buildBisyncRdbReplayUnit(conn client.Redis, fullSyncOffse
 	if e == nil || e.ObjectParser == nil {
 		return nil, true, nil
 	}
+	if isBisyncNamespaceKey(util.BytesToString(e.Key)) {
+		// bookkeeping of the opposite link found in the snapshot is not business data
+		return nil, true, nil
+	}
 
 	targetKey := ro.bisyncRdbTargetKey(e.Key)
 	globalStandaloneEntry := !ro.cfg.Redis.IsCluster() && (e.ObjectParser.Type() == rdb.RdbObjectFunction || e.ObjectParser.Type() == rdb.RdbObjectAux)
